@@ -332,7 +332,7 @@ def _equality(lit: AST) -> Optional[tuple[AST, AST]]:
             ):
                 var = atom.term
                 rest = atom.guards[0].term
-                if var.name == "_" or (rest.ast_type == ASTType.Variable and rest.name == "_"):
+                if var.name == "_" or any(x.name == "_" for x in collect_ast(rest, "Variable")):
                     return None
                 return var, rest
         elif len(atom.guards) == 1 and atom.guards[0].term.ast_type == ASTType.Variable:
@@ -341,7 +341,7 @@ def _equality(lit: AST) -> Optional[tuple[AST, AST]]:
             ):
                 var = atom.guards[0].term
                 rest = atom.term
-                if var.name == "_" or (rest.ast_type == ASTType.Variable and rest.name == "_"):
+                if var.name == "_" or any(x.name == "_" for x in collect_ast(rest, "Variable")):
                     return None
                 return var, rest
     return None
